@@ -409,6 +409,9 @@ func (q *TransmitLimitedQueue) Prune(maxRetain int) {
 
 	// Do nothing if queue size is less than the limit
 	for q.lenLocked() > maxRetain {
+		if q.tq == nil {
+			break // idle queue and a negative maxRetain
+		}
 		item := q.tq.Max()
 		if item == nil {
 			break
